@@ -12,6 +12,7 @@ ChainSpec.v evaluated on the generator's own knowledge of the graph.
 """
 import base64, calendar, hashlib, json, os, re
 import vlib
+import c03crl
 
 # ---------------------------------------------------------------- certificate table
 # (path under testkeys, role, path of the CA that signed it)
@@ -206,7 +207,7 @@ class Universe:
 # ---------------------------------------------------------------- nodes, lines
 def node(U, b, **kw):
     n = dict(b=b, k=-1, hs=-1, ss=-1, co=0, alg=U.alg[b], subj=1, iss=1, ver=2, ca=0, pl=-1, ku=0, eku=0, crit=0,
-             akl=0, akv=0, skl=0, skv=0, fl0=0, st0=0, nb=0, na=0, rev=6)
+             akl=0, akv=0, skl=0, skv=0, fl0=0, st0=0, nb=0, na=0, rev=6, serial=None)
     n.update(kw)
     return n
 
@@ -221,7 +222,8 @@ def true_alg(U, t):
 def node_tok(U, n):
     t = tbs_of(n)
     kf = U.key_id[n["k"] if n["k"] >= 0 else n["b"]]
-    return ":".join(str(n[f]) for f in FIELDS) + ":%d:%d:%d:%d:%d" % (U.signer_id[t], kf, true_alg(U, t), P3[n["nb"]], date_now(n))
+    return (":".join(str(n[f]) for f in FIELDS) + ":%d:%d:%d:%d:%d" % (U.signer_id[t], kf, true_alg(U, t), P3[n["nb"]], date_now(n)) +
+            ("" if n.get("serial") is None else ":" + c03crl.shex(n["serial"])))
 
 def vc_line(U, rv, chain, anchors):
     return "vc %d %d %d %s" % (rv, len(chain), len(anchors), " ".join(node_tok(U, n) for n in chain + anchors))
@@ -229,21 +231,35 @@ def vc_line(U, rv, chain, anchors):
 def ac_line(U, chain, issuer):
     return "ac %d %d %s" % (len(chain), 1 if issuer else 0, " ".join(node_tok(U, n) for n in chain + ([issuer] if issuer else [])))
 
+def vk_line(U, P, rv, chain, anchors, ktoks):
+    return "vk %d %d %d %d %s" % (rv, len(chain), len(anchors), len(ktoks), " ".join([node_tok(U, n) for n in chain + anchors] + [c03crl.crl_tok(P, k) for k in ktoks]))
+
+def ak_line(U, P, chain, issuer, ktoks):
+    return "ak %d %d %d %s" % (len(chain), 1 if issuer else 0, len(ktoks), " ".join([node_tok(U, n) for n in chain + ([issuer] if issuer else [])] + [c03crl.crl_tok(P, k) for k in ktoks]))
+
 def parse_vc(U, line):
+    """-> rv, chain, anchors, CRL tokens"""
     t = line.split()
-    isvc = t[0] == "vc"
+    isvc, hask = t[0][0] == "v", t[0][1] == "k"
     rv = int(t[1]) if isvc else 0
     nc, na = (int(t[2]), int(t[3])) if isvc else (int(t[1]), int(t[2]))
+    nk = int(t[4 if isvc else 3]) if hask else 0
+    base = (4 if isvc else 3) + (1 if hask else 0)
     nodes = []
-    for tok in t[(4 if isvc else 3):]:
-        f = [int(x) for x in tok.split(":")]
-        nodes.append(dict(zip(FIELDS, f[:23])))
-    return rv, nodes[:nc], nodes[nc:]
+    for tok in t[base:base + nc + na]:
+        f = tok.split(":")
+        n = dict(zip(FIELDS, [int(x) for x in f[:23]]))
+        n["serial"] = (b"" if f[28] == "e" else bytes.fromhex(f[28])) if len(f) > 28 and f[28] != "-" else bytes([255, 255, n["b"]])
+        nodes.append(n)
+    return rv, nodes[:nc], nodes[nc:nc + na], [c03crl.parse_ktok(x) for x in t[base + nc + na:base + nc + na + nk]]
 
 
 # ---------------------------------------------------------------- independent spec oracle (ChainSpec.v)
 class Oracle:
-    def __init__(self, U): self.U = U
+    def __init__(self, U):
+        self.U = U
+        self.K = []                       # the cache the current case loaded (c03crl.CacheOracle.load)
+        self.CO = c03crl.CacheOracle(self)
     def key(self, n): return self.U.key_id[n["k"] if n["k"] >= 0 else n["b"]]
     def sig_true(self, sc, ic):
         """the generator's ground truth: sc's signature bytes are the untouched signature over the TBS it
@@ -252,7 +268,7 @@ class Oracle:
         return sig_of(sc) == 2 * t and self.U.signer_id[t] == self.key(ic) and true_alg(self.U, t) in (0, sc["alg"])
     def issued_by(self, sc, ic):
         return (sc["iss"] == ic["subj"] and self.sig_true(sc, ic) and ic["ca"] == CA_TRUE and
-                (ic["ku"] == 0 or (ic["ku"] & 4) != 0) and sc["rev"] != REVOKED)
+                (ic["ku"] == 0 or (ic["ku"] & 4) != 0) and not self.CO.revoked_in(self.K, sc))
     def same_cert(self, sc, ic): return tbs_of(sc) == tbs_of(ic) and sig_of(sc) == sig_of(ic)
     def step(self, sc, ic): return self.issued_by(sc, ic) or self.same_cert(sc, ic)
     def pathlen_ok(self, sc, ic, k):
@@ -283,9 +299,10 @@ class Oracle:
         if leaf["crit"] and not (leaf["eku"] & 6): return None
         if not all(self.link_supported(chain[i], chain[i + 1]) for i in range(len(chain) - 1)): return None
         if not all(self.valid_now(rv, c) for c in chain): return None
+        if not all(self.CO.not_listed(self.K, c) for c in chain): return None
         for j, a in enumerate(anchors):
             p = chain + [a]
-            top_ok = self.link_supported(top, a) or (self.same_cert(top, a) and top["iss"] != a["subj"] and a["ca"] == CA_TRUE and top["rev"] != REVOKED)
+            top_ok = self.link_supported(top, a) or (self.same_cert(top, a) and top["iss"] != a["subj"] and a["ca"] == CA_TRUE)
             if (top_ok and all(self.pathlen_ok(p[i], p[i + 1], i) for i in range(len(p) - 1)) and
                     (not rv or self.valid_now(rv, a)) and not any(self.claims(top, x) for x in anchors[:j])):
                 return j
@@ -391,7 +408,7 @@ class Gen:
         elif m == 19: rv = 1; nd["na"] = r.choice([1, 1, 2])
         elif m == 20: rv = 1; nd["nb"] = r.choice([3, 3, 4, 2, 1])
         elif m == 21: rv = 1
-        elif m == 22: nd["rev"] = r.choice([9, 9, 5, 7, 8, 10, 11])
+        elif m == 22: pass                   # (was: injected CRL verdict; revocation now comes from real CRLs, c03crl.gen_cache)
         elif m == 23: nd["st0"] = r.choice([1, 1, -34, -37, -33, 5])
         elif m == 24 and len(chain) < 6:
             # a certificate repeated in the chain (with or without a consistent issuer name)
@@ -438,7 +455,7 @@ class Gen:
 
 def single_field_sweep(U, G, r, nbases):
     """every single-field change (values from the interesting sets) of a few genuine chains"""
-    vals = dict(co=[1], ca=[0, 127], ver=[0, 1, 3], pl=[0, 1, -1], ku=[0, 2, 4, 0xE0], fl0=[8, 1], st0=[1, -34], rev=[9, 7],
+    vals = dict(co=[1], ca=[0, 127], ver=[0, 1, 3], pl=[0, 1, -1], ku=[0, 2, 4, 0xE0], fl0=[8, 1], st0=[1, -34],
                 akl=[0, 8], akv=[77], skl=[0, 8], skv=[78], nb=[1, 2, 3, 4], na=[1, 2], iss=[999], subj=[998], crit=[1], eku=[0, 8])
     out = []
     for _ in range(nbases):
@@ -524,6 +541,12 @@ def ps_cases(repo, U, r, consts, budget):
 
 
 # ---------------------------------------------------------------- run
+POOL = [None]
+
+def c03pki_crl(der):
+    import c03pki
+    return c03pki.Crl(der)
+
 def corpus_cases():
     out = []
     p = os.path.join(vlib.VERIF, "corpus", "C03")
@@ -536,7 +559,7 @@ def corpus_cases():
     return out
 
 def accepted(out):
-    m = re.match(r"rc=(-?\d+) found=(\S+) st=(\S+) fl=(\S+)$", out)
+    m = re.match(r"rc=(-?\d+) found=(\S+) st=(\S+) fl=(\S+)( |$)", out)
     if not m: return None
     return int(m.group(1)) == 0 and all(int(x) == PASS for x in m.group(3).split(","))
 
@@ -546,6 +569,7 @@ def why_no_path(O, rv, chain, top_issuer):
     for i in range(len(p) - 1):
         sc, ic = p[i], p[i + 1]
         if not O.step(sc, ic):
+            if O.CO.revoked_in(O.K, sc): return "revoked:" + c03crl.shape(sc["serial"])
             if sc["iss"] != ic["subj"] and sig_of(sc) == sig_of(ic): return "equal-signature-bytes-foreign-issuer"
             if sc["iss"] != ic["subj"] and tbs_of(sc) == tbs_of(ic): return "equal-digest-foreign-issuer"
             if sc["iss"] != ic["subj"]: return "foreign-issuer"
@@ -573,13 +597,26 @@ def setup(ck):
     return R, U, h, certlines
 
 def spec_check(ck, U, O, line, out, model=None):
-    """Impl vs Spec on one vc line"""
-    rv, chain, anchors = parse_vc(U, line)
+    """Impl vs Spec on one vc / vk line"""
+    rv, chain, anchors, ktoks = parse_vc(U, line)
     acc = accepted(out)
-    if acc is None or not line.startswith("vc "): return
+    if acc is None or line[:3] not in ("vc ", "vk "): return
     if any(n["ver"] != 2 for n in chain + anchors):
         ck.count("spec:outside-parse-gate"); return
     rep = {"harness": "h_chain", "case": line, "observed": out, "model": model}
+    if ktoks and POOL[0] is not None:
+        rep["crl_lines"] = ["crl %d %s" % (i, POOL[0].entries[i][0].hex()) for i in sorted(set([k["ci"] for k in ktoks] + [k["ss"] for k in ktoks if k["ss"] >= 0])) if i < len(POOL[0].entries)]
+    O.K = O.CO.load(ktoks, chain + anchors)
+    if ktoks:
+        if any(O.CO.encoding_matters(O.K, c) for c in chain):
+            # a CRL entry and a serial number that are the same NUMBER in different octets: one of them is not DER
+            # (assumption of ChainSpec.revoked_in); the library compares octets - correspondence only
+            ck.count("crl:non-DER-serial-involved"); return
+        ck.count("crl:cache-" + ("tidy" if O.CO.tidy(O.K) else "untidy"))
+        m = re.search(r" rl=(\S+)", out)
+        for x in (m.group(1).split(",") if m and m.group(1) != "-" else []): ck.count("crl:status-%s" % x)
+        if acc and not O.CO.tidy(O.K) and any(O.CO.literally_revoked(O.K, c) for c in chain):
+            ck.count("crl:accepted-though-listed-in-a-shadowed-or-stale-authenticated-CRL")
     if not anchors:
         # chain-only call: success must mean an internally signed chain ending in a genuinely self-signed certificate
         ok = O.self_contained(chain) and all(O.valid_now(rv, c) for c in chain)
@@ -620,10 +657,16 @@ def run(ck):
                    "(version / algorithm / SHA-1 rule / unknown critical extension / date flag) are hand-written Gallina (coq/Chain/ChainModel.v) compared with the library on every run",
                    "psVerifySig is the section variable sig_ok; in the runs it is the library's own verification on real testkeys signatures, on the model side the generator's "
                    "ground truth (naming convention of testkeys/readme.txt, cross-checked for RSA PKCS#1 v1.5 by a pure-Python verification of every body/key pair)",
-                   "DER -> psX509Cert_t parser beyond the gate rules (C09); CRL cache reduced to the status it reports (link-time wrapper of psCRL_determineRevokedStatus)"]
+                   "DER -> psX509Cert_t parser beyond the gate rules (C09)",
+                   "revocation: crl.c (psCRL_determineRevokedStatus, internalGetCrlForCert, internalCrlIsRevoked, psX509AuthenticateCRL, psCRL_Insert/Update) is hand-written Gallina "
+                   "compared with the library on CRLs parsed from DER made by tools/c03pki.py (pure-Python DER + RSA signing with the testkeys CA keys); "
+                   "psX509ParseCRL itself is tied by those runs and by the DER-level oracle only"]
     ck.assumptions += ["every certificate reached the validator through psX509ParseCert (v3, no unknown critical extension, enabled algorithm)",
                        "the leaf's authStatus is 0 when validation starts (freshly parsed)",
                        "TBS digest and signature value identify a certificate (collision resistance): a copy of a certificate stands for it",
+                       "revocation: serial numbers are DER (minimal INTEGER octets) in certificates and CRL entries; the literal clause (no authenticated loaded CRL lists the certificate) "
+                       "is proved for a tidy cache - one CRL per issuer name, none past nextUpdate (c03_revocation; c03_revocation_shadowed/stale_refuted show why); "
+                       "the CRL of the top certificate's issuer must have been authenticated by the application (only chain parents authenticate on the fly)",
                        "converse direction: supported features as in ChainSpec.supported_path (CA keyUsage present or pre-RFC3280, key identifiers agree, "
                        "critical EKU allows TLS, the first trust anchor that answers for the top certificate is the genuine one)"]
     R, U, h, certlines = setup(ck)
@@ -641,7 +684,11 @@ def run(ck):
     r = ck.rng("gen")
     G = Gen(U, r)
     O = Oracle(U)
-    cases = corpus_cases()
+    corp = corpus_cases()
+    corpus_crl = [l for l in corp if l.startswith("crl ")]          # fixed CRL table entries 90.. used by corpus lines
+    corpus_rv = [l for l in corp if l.startswith("rv ")]
+    corpus_nonext = [l for l in corp if l.startswith(("vk ", "ak ")) and any(x.split(":")[5] == "3" for x in l.split()[-int(l.split()[4 if l[0] == "v" else 3]):])]
+    cases = [l for l in corp if l not in corpus_crl and l not in corpus_rv and l not in corpus_nonext]
     ncorp = len(cases)
     seen = set(cases)
     def add(l):
@@ -653,7 +700,38 @@ def run(ck):
         rv, c, a = G.case()
         add(vc_line(U, rv, c, a))
         if r.random() < 0.12: add(ac_line(U, c, None) if (not a or r.random() < 0.3) else ac_line(U, [c[-1]], r.choice(a)))
+    # revocation, graph level: the same graphs with serial numbers and a CRL cache (CRLs made and signed here)
+    keys = c03crl.Keys(R)
+    P = c03crl.CrlPool(U, keys, ck.rng("crlpool"), consts["n_OID_SHA256_RSA_SIG"])
+    crllines = P.lines() + corpus_crl
+    POOL[0] = P
+    rk = ck.rng("crl")
+    nk = ck.budget(3500, 60000)
+    kcases = []
+    while len(kcases) < nk:
+        nch = rk.choice([1, 1, 2, 2, 3, 4]); nan = rk.choice([1, 1, 1, 2, 3, 0])
+        c, a, right = G.good(nch, nan)
+        rvk = 1 if rk.random() < 0.1 else 0
+        kt = c03crl.gen_cache(G, P, rk, c, a, right)
+        if rk.random() < 0.25: rvk = G.mutate(rvk, c, a)
+        for n_ in c + a:
+            if n_.get("serial") is None: n_["serial"] = rk.choice(c03crl.SERIALS)
+        kt = [k_ for k_ in kt if k_["ap"] < len(c) + len(a)]
+        if rk.random() < 0.9: l = vk_line(U, P, rvk, c, a, kt)
+        else:
+            iss_ = a[0] if a and rk.random() < 0.6 else None
+            l = ak_line(U, P, c, iss_, [dict(k_, ap=(k_["ap"] if k_["ap"] < len(c) + (1 if iss_ else 0) else -1)) for k_ in kt])
+        if l not in seen: seen.add(l); kcases.append(l)
+    # a CRL without nextUpdate (nu=3) crashed the unrepaired library: own batch, so that a crash there is reported for what it is
+    ncases = list(corpus_nonext)
+    for l in kcases[:ck.budget(150, 2000)]:
+        t_ = l.split(); nkk = int(t_[4 if t_[0] == "vk" else 3])
+        if nkk:
+            toks = t_[-nkk:]; f = toks[0].split(":"); f[5] = "3"; toks[0] = ":".join(f)
+            ncases.append(" ".join(t_[:-nkk] + toks))
+    cases += kcases
     pcases = ps_cases(R, U, ck.rng("ps"), consts, ck.budget(1500, 100000))
+    certlines = certlines + crllines
     t = vlib.time.time()
     rc, impl, err = ck.run_lines(h, certlines + cases + pcases)
     ck.log("harness: %d lines in %.1fs" % (len(cases) + len(pcases), vlib.time.time() - t))
@@ -661,6 +739,10 @@ def run(ck):
     k = len(certlines)
     impl_c, model_c = impl[k:k + len(cases)], model[k:k + len(cases)]
     impl_p, model_p = impl[k + len(cases):], model[k + len(cases):]
+    ck.rules.append("revocation: the same graphs with serial numbers of every shape (1 octet, zero, top bit set = leading 00, negative, 20 and 40 octets, non-minimal, empty, near misses of "
+                    "listed serials) and 0-3 cached CRLs parsed from DER signed here with the testkeys CA keys (right / other signer, tampered signature, entry and CRL extensions, duplicates), "
+                    "flags and loading varied (authenticated or not, psX509AuthenticateCRL by the issuer or by another certificate, expired, nextUpdate past / unparsable / absent, Insert or Update, "
+                    "same issuer name twice); DER level: re-issued certificates and CRLs through the public API only")
     ck.rules.append("structure-aware: a genuinely signed rule-abiding chain (length 1..5, anchor sets 0..3, real RSA-1024..4096 / P-192..521 / PSS bodies and keys mixed per node) "
                     "plus 0-3 of 30 targeted changes (signature corrupted / copied from another certificate / from a trust anchor / TBS digest copied, wrong key, wrong algorithm, names, CA flag, "
                     "version, pathLen, keyUsage, issue date, EKU, key identifiers, date flags and re-validation, CRL verdict, stale authStatus, repeated certificate, anchor sent by the peer, "
@@ -671,7 +753,7 @@ def run(ck):
     ck.correspond("parse_gate/date_flag(model) vs psX509ParseCert(impl)", pcases, impl_p, model_p)
     for i, c in enumerate(cases):
         if i < len(impl_c):
-            ck.count(("vc:" if c.startswith("vc") else "ac:") + (impl_c[i].split()[0] if impl_c[i] else "?"))
+            ck.count(c[:2] + ":" + (impl_c[i].split()[0] if impl_c[i] else "?"))
             spec_check(ck, U, O, c, impl_c[i], model_c[i] if i < len(model_c) else None)
     # parse gate against the property directly: a certificate signed with a disabled algorithm (SHA-1 on a non-root, MD5, MD2),
     # of a version other than 3, or carrying an unknown critical extension must not parse
@@ -703,6 +785,54 @@ def run(ck):
             ck.spec_violation("revalidate-same-struct", "validating the same parsed certificate a second time gives a different verdict "
                               "(psVerifySig consumes the const signature buffer)", {"harness": "h_chain", "case": l, "cert": U.names[int(l.split()[1])], "observed": o,
                                                                                    "expected_by_spec": "first=0/1 second=0/1"})
+    # CRLs without nextUpdate (model: never stale)
+    if ncases:
+        rcn, nimpl, _ = ck.run_lines(h, certlines + ncases)
+        _, nmodel, _ = ck.run_lines(drv, certlines + ncases)
+        if rcn != 0 or len(nimpl) != len(certlines) + len(ncases):
+            ck.spec_violation("crl-without-nextupdate-crash", "the harness died (rc %d) while validating against a cached CRL that has no nextUpdate field" % rcn,
+                              {"harness": "h_chain", "case": ncases[min(len(ncases) - 1, max(0, len(nimpl) - len(certlines)))], "observed": "process exit %d after %d of %d cases" % (rcn, max(0, len(nimpl) - len(certlines)), len(ncases)),
+                               "expected_by_spec": "a verdict"})
+        else:
+            ck.correspond("validate(model) vs matrixValidateCertsExt(impl), cached CRL without nextUpdate", ncases, nimpl[len(certlines):], nmodel[len(certlines):])
+            for c, o, mo in zip(ncases, nimpl[len(certlines):], nmodel[len(certlines):]): spec_check(ck, U, O, c, o, mo)
+    # revocation, DER level: nothing overridden, public API only, independent oracle on the DER
+    W = c03crl.DerWorld(R, keys)
+    DO = c03crl.DerOracle()
+    dcases = [(l, c03crl.meta_from_rv_line(l)) for l in corpus_rv] + c03crl.der_cases(W, ck.rng("der"), ck.budget(1200, 20000))
+    for batch, name in (([d for d in dcases if not d[1]["has_absent"]], "rv"), ([d for d in dcases if d[1]["has_absent"]], "rv-no-nextupdate")):
+        if not batch: continue
+        rcd, dout, _ = ck.run_lines(h, [l for l, _ in batch])
+        ck.cov["evaluations"] += len(batch)
+        if rcd != 0 or len(dout) != len(batch):
+            ck.spec_violation("crl-without-nextupdate-crash" if name != "rv" else "der-level-crash",
+                              "the harness died (rc %d) in the DER-level revocation batch '%s'" % (rcd, name),
+                              {"harness": "h_chain", "case": batch[min(len(dout), len(batch) - 1)][0][:300] + "...", "full_case": batch[min(len(dout), len(batch) - 1)][0],
+                               "observed": "process exit %d after %d of %d cases" % (rcd, len(dout), len(batch)), "expected_by_spec": "a verdict"})
+            continue
+        for (l, meta), o in zip(batch, dout):
+            m = re.match(r"rc=(-?\d+) st=(\S+) rs=(\S+) au=(\S+)$", o)
+            if not m:
+                ck.spec_violation("der-level-unexpected", "unexpected answer in the DER-level revocation batch", {"harness": "h_chain", "case": l[:300] + "...", "full_case": l, "observed": o}); continue
+            acc = int(m.group(1)) == 0 and all(x == "1" for x in m.group(2).split(","))
+            v = DO.verdict(meta)
+            ck.add_distinct("rv" + l[:0] + str(hash(l)))
+            ck.count("rv:" + ("accept" if acc else "reject") + ("/revoked" if v["revoked"] else "/clear") + ("" if v["tidy"] else "/untidy"))
+            if v["nonminimal"]:
+                ck.count("rv:non-DER-serial-involved"); continue
+            if not v["tidy"]:
+                if acc and v["revoked"]: ck.count("rv:accepted-though-listed-in-a-shadowed-or-stale-authenticated-CRL")
+                continue
+            rep = {"harness": "h_chain", "case": l[:300] + "...", "full_case": l, "observed": o,
+                   "chain_serials": [c.serial.hex() for c in meta["chain"]], "crls": [[s.hex() for s in c03pki_crl(d).serials] + [by, mode] for d, by, mode in meta["crls"]]}
+            if acc and v["revoked"]:
+                ck.spec_violation("revoked-accepted:" + "+".join(sorted(set(v["shapes"]))),
+                                  "matrixValidateCerts accepts a chain although an authenticated CRL the application loaded under the issuer's name lists the certificate's serial number",
+                                  dict(rep, expected_by_spec="reject"))
+            if not acc and not v["revoked"]:
+                ck.spec_violation("unrevoked-rejected:rc=%s" % m.group(1),
+                                  "matrixValidateCerts rejects a genuinely signed chain none of whose certificates is listed in an authenticated CRL",
+                                  dict(rep, expected_by_spec="accept"))
     # public API, untouched certificates: the order of two same-named trust anchors must not decide
     ix = U.names.index
     pv = ["pv %d %d %d" % (ix("RSA/2048_RSA"), ix("RSA/2048_RSA_CA"), ix("@decoy_rsa2048_ca")),
@@ -724,12 +854,14 @@ def replay(ck, path):
     R, U, h, certlines = setup(ck)
     O = Oracle(U)
     c = rp.get("full_case") or rp["case"]
+    certlines = certlines + [l for l in corpus_cases() if l.startswith("crl ")] + rp.get("crl_lines", [])
     rc, out, err = ck.run_lines(h, certlines + [c])
     o = out[len(certlines)] if len(out) > len(certlines) else "?"
     print("case:", c[:300])
     print("  impl:", o)
-    if c.startswith("vc "):
-        rv, chain, anchors = parse_vc(U, c)
+    if c[:3] in ("vc ", "vk "):
+        rv, chain, anchors, ktoks = parse_vc(U, c)
+        O.K = O.CO.load(ktoks, chain + anchors)
         if anchors:
             print("  spec: genuine_path=%s supported_anchor=%s -> expected %s" % (O.genuine(rv, chain, anchors), O.supported(rv, chain, anchors),
                   "accept" if O.genuine(rv, chain, anchors) else "reject"))
